@@ -91,13 +91,13 @@ class C10(Property):
         yield from self.adversarial(rng, small=True)
         yield from self.exhaustive_q(4)
         yield from self.exhaustive_b(6 if not self.thorough else 7)
-        n_rand = 30000 if self.thorough else 1500
+        yield from self.adversarial(rng, small=False)
+        yield from self.large(rng)
+        n_rand = 200000 if self.thorough else 12000
         for i in range(n_rand):
             yield self.random_q(rng, big=(i % 25 == 0))
             if i % 3 == 0:
                 yield self.random_b(rng)
-        yield from self.adversarial(rng, small=False)
-        yield from self.large(rng)
         if self.thorough:
             yield from self.exhaustive_q(5)
 
